@@ -174,7 +174,30 @@ def run(ctx):
     ctx.log("histories conforming: %d / %d (%d connections, %d expected resumptions, %d expected client-certificate failures)" % (ok, len(hist), nconn, nres, nfail))
     if nres < 50:
         raise Infra("vacuous: only %d resumptions exercised" % nres)
-    ctx.cov["evaluations"] = len(hist)
+    # tickets of ANOTHER server (ticket key 32 zero bytes / some other key), issued to a client that presented a certificate,
+    # offered to servers set up in each documented way: TLCPResume's rule - a ticket is accepted only under a key in force
+    # on this server - leaves a full handshake as the one outcome (in particular no Config may fall back to a guessable key)
+    ff = os.path.join(ctx.work, "foreign.json")
+    ctx.harness(["c16-foreign", ff], timeout=600)
+    fobs = json.load(open(ff))
+    if len(fobs) < 24:
+        raise Infra("c16-foreign: %d observations" % len(fobs))
+    fok = 0
+    for o in fobs:
+        what = "%s server (%s) offered a ticket that another server issued under %s" % (o["Proto"], o["Target"], "the all-zero ticket key" if o["Forger"] == "zero key" else "its own key")
+        probs = []
+        if o["Panic"]:
+            probs.append("panic: " + o["Panic"][:300])
+        if o["Resumed"]:
+            probs.append("the server resumed the session (client identity taken from the ticket: %d certificate(s))" % o["PeerCerts"])
+        elif not o["Complete"] and not o["Panic"]:
+            probs.append("no full handshake instead: client %r, server %r" % (o["CliErr"], o["SrvErr"]))
+        if probs:
+            ctx.violation("%s: %s" % (what, "; ".join(probs)), {"probe": o})
+        else:
+            fok += 1
+    ctx.log("foreign tickets refused with a full handshake: %d / %d" % (fok, len(fobs)))
+    ctx.cov["evaluations"] = len(hist) + len(fobs)
     ctx.cov["distinct_nontrivial"] = len(hist)
     ctx.cov["connections"] = nconn
     ctx.cov["expected_resumptions"] = nres
